@@ -159,7 +159,7 @@ def gen_body(rng, short):
     raise AssertionError(kind)
 
 
-def gen_message(rng, short=False, kinds=('ret', 'err', 'sig', 'call')):
+def gen_message(rng, short=False, kinds=('ret', 'err', 'sig', 'call'), big=None):
     """-> (raw bytes, big?, message object).  Byte order mixed."""
     marshal, message, _, _ = _mods()
     kind = rng.choice(kinds if not short else ('ret', 'ret', 'ret', 'err', 'call'))
@@ -181,7 +181,8 @@ def gen_message(rng, short=False, kinds=('ret', 'err', 'sig', 'call')):
                                       signature=sig, body=body,
                                       expectReply=rng.random() < 0.7, autoStart=rng.random() < 0.7)
     m.serial = gen_int(rng, 1, 2 ** 32 - 1)
-    big = rng.random() < 0.5
+    if big is None:
+        big = rng.random() < 0.5
     raw = serialize(m, big)
     if not big:
         m._marshal(False)
@@ -486,6 +487,27 @@ class Batch:
                                       'bytes': sum(len(r) for r in sc['reads']) // 2}),
                      nontrivial=nontrivial)
             ctx.stat('%s:reads=%s' % (stream, bucket(len(sc['reads']))))
+            if sc['mode'] == 'binary' and sc['sent']:
+                # a single read that holds the fixed headers of messages in both byte orders
+                pos, starts = 0, []
+                for h in sc['sent']:
+                    starts.append((pos, h[:2]))
+                    pos += len(h) // 2
+                rp, mixed = 0, False
+                for r in sc['reads']:
+                    kinds = {k for (st, k) in starts if rp <= st < rp + len(r) // 2}
+                    mixed = mixed or len(kinds) > 1
+                    rp += len(r) // 2
+                ctx.stat('%s:one-read-mixed-endian=%s' % (stream, mixed))
+            if sc.get('handshake'):
+                hs = len(sc['handshake']) // 2
+                rp, pieces = 0, 0
+                for r in sc['reads']:
+                    n = len(r) // 2
+                    if rp < hs < rp + n:
+                        pieces = bytes.fromhex(r)[hs - rp:].count(b'\r\n')
+                    rp += n
+                ctx.stat('%s:crlf-pieces-in-joined-read=%s' % (stream, bucket(pieces)))
             ctx.stat('%s:delivered=%s' % (stream, bucket(len(o['raws']))))
             if o['crashed']:
                 ctx.stat('%s:exception=%s' % (stream, o['crashed']))
@@ -547,8 +569,10 @@ def stream_binary_cuts(ctx, B):
     n_streams = ctx.scale(quick=3, thorough=120)
     for s in range(n_streams):
         raws = []
+        first_big = rng.random() < 0.5
         while True:
-            raw, big, m = gen_message(rng, short=True)
+            # byte orders alternate inside the stream: every multi-message read is mixed
+            raw, big, m = gen_message(rng, short=True, big=(first_big if len(raws) % 2 == 0 else not first_big))
             if sum(map(len, raws)) + len(raw) > (90 if ctx.tier == 'quick' else 120):
                 if raws:
                     break
@@ -715,9 +739,10 @@ def stream_handoff_cuts(ctx, B):
         side = 'real-client' if i % 2 == 0 else 'real-server'
         hs = b'OK 0d0a\r\n' if side == 'real-client' else b'\0AUTH ANONYMOUS\r\nBEGIN\r\n'
         raws = []
-        for _ in range(50):
+        for _ in range(400):
             raw = gen_message(rng, short=True)[0]
-            if b'\r\n' in raw and len(raw) <= 56:
+            # several CR LF inside the message bytes: the old code cut them into several pieces
+            if raw.count(b'\r\n') >= (2 if not raws else 1) and len(raw) <= 64:
                 raws.append(raw)
                 if len(raws) == (1 if ctx.tier == 'quick' else 2):
                     break
